@@ -89,6 +89,8 @@ impl Engine for Msim {
             // pause-free histories are cheap: more of them
             ("C04" | "C08" | "C13", false) => 16 * 6000,
             ("C04" | "C08" | "C13", true) => 16 * 60000,
+            // retain / take windows need a pause in the right callback: more histories
+            ("C09", false) => 16 * 2500,
             (_, false) => 16 * 800,
             (_, true) => 16 * 20000,
         };
